@@ -98,11 +98,21 @@ Simon(c) ==
              ELSE IF ~DecodeOK(c) THEN <<"fail", "decode_output", 0>>
              ELSE <<"ok", "", sp>>
 
-Verdict(c) ==
+\* decode_counts: c.cnts = << [v, thr, res] >> : a synthetic counts dictionary over the WHOLE register in which outcome v
+\* of the output register occurs under two different full strings with counts 5 and 7 (they differ on a qubit outside
+\* the output register when there is one), decoded with discard_lower = thr (0: no threshold).  The decoded
+\* dictionary must hold exactly  decode_output(v) |-> 12  when 12 >= thr, and nothing otherwise.
+CountsOK(c) ==
+  \A k \in 1..Len(c.cnts) :
+     LET t == c.cnts[k] IN
+     IF t.thr <= 12 THEN Len(t.res) = 1 /\ t.res[1][1] = c.dec[t.v + 1] /\ t.res[1][2] = 12
+     ELSE Len(t.res) = 0
+Main(c) ==
   CASE c.kind = "grover" -> Grover(c)
     [] c.kind = "dj" -> DJ(c)
     [] c.kind = "bv" -> BV(c)
     [] c.kind = "simon" -> Simon(c)
+Verdict(c) == IF ~CountsOK(c) THEN <<"fail", "decode_counts", 0>> ELSE Main(c)
 
 Init == i = 1
 Next == /\ i <= Len(Cases)
